@@ -21,6 +21,77 @@ def behaviours(cfg, tag, simulate=None, seed=1):
     return list(uniq.values())
 
 
+def free_traces(v, thorough, seed):
+    """B3: free-running concurrent calls on the real node; each round's recorded log is validated by TLC against Trace_Rpc"""
+    import re
+    d = lib.outdir(PID)
+    rounds, per = (12, 12) if thorough else (3, 8)
+    lib.harness(["rpc-free", seed, rounds, per, d], timeout=900)
+    summ = lib.read_ndjson(os.path.join(d, "free_summary.ndjson"))
+    if len(summ) != rounds or any("tool_error" in s for s in summ):
+        raise lib.ToolError(f"free-running rpc rounds did not complete: {summ[:2]}")
+    ok = 0
+    for sm in summ:
+        log = lib.read_ndjson(sm["log"])
+        rid_of, id_of = {}, {}
+        trace = []
+        for e in log:
+            lab, det, actor = e["label"], e["detail"], e["actor"]
+            c = int(actor[1:]) if re.fullmatch(r"c\d+", actor) else 0
+            if lab == "rpc.allocated":
+                rid_of[det] = len(rid_of) + 1
+                id_of[det.split(".")[0]] = rid_of[det]
+                trace.append({"ev": "allocated", "c": c, "rid": rid_of[det]})
+            elif lab == "rpc.inserted":
+                trace.append({"ev": "inserted", "c": c})
+            elif lab == "rpc.sent":
+                trace.append({"ev": "sent", "c": c})
+            elif lab == "rpc.timed_out":
+                trace.append({"ev": "timed_out", "c": c})
+            elif lab == "peer_reply":
+                kind, pid = det.split(":")
+                r = rid_of.get(pid, 0)
+                trace.append({"ev": "peer_reply", "to": 99 if kind == "stray" else (r + 50 if kind == "stale" else r)})
+            elif lab == "rx.frame" and det == "ok":
+                trace.append({"ev": "rx_frame"})
+            elif lab == "rx.routed":
+                trace.append({"ev": "rx_routed"})
+            elif lab == "return":
+                if det.startswith("ok:"):
+                    _, idn, kind = det.split(":")
+                    r = id_of.get(idn, 0)
+                    trace.append({"ev": "return", "c": c, "kind": "ok", "got": 99 if kind == "2" else (r + 50 if kind == "1" else r)})
+                elif det == "timeout":
+                    trace.append({"ev": "return", "c": c, "kind": "timeout", "got": 0})
+                else:
+                    v.violation("a remote call on a healthy connection ended with an error other than a timeout", {"round": sm["round"], "result": det})
+        tp = os.path.join(d, f"free_trace_{sm['round']}.ndjson")
+        lib.write_ndjson(tp, trace)
+        v.case("free " + json.dumps(trace))
+        r = lib.tlc("trace/Trace_Rpc.tla", "trace/Trace_Rpc.cfg", PID, f"trace_free_{sm['round']}", workers=1, env={"TRACE": tp}, timeout=600)
+        real = [i for i in r.violated if i != "NotFinished"]
+        if real:
+            v.violation(f"recorded execution of free-running remote calls violates {real}", {"round": sm["round"], "trace": tp, "tlc_log": f"out/{PID}/tlc_trace_free_{sm['round']}.log"})
+        elif "NotFinished" in r.violated:
+            ok += 1
+        else:
+            m = re.search(r'"FURTHEST LINE EXPLAINED",\s*(\d+),\s*(.*?)>>', r.text, re.S)
+            line = int(m.group(1)) if m else -1
+            nxt = trace[line] if 0 <= line < len(trace) else None
+            if nxt and nxt["ev"] == "return":
+                # everything up to a caller's return is explained, the outcome itself is not: no behaviour of the spec gives this caller this result here
+                v.violation("a caller's outcome is not one the specification allows after the recorded events (wrong reply, or a timeout although its reply had been routed)",
+                            {"round": sm["round"], "caller": nxt["c"], "outcome": nxt, "trace": tp, "line": line + 1})
+                continue
+            v.add_drift(f"recorded execution of free-running remote calls is not a behaviour of Rpc.tla beyond line {m.group(1) if m else '?'}: {re.sub(chr(10) + ' *', ' ', m.group(2))[:200] if m else ''}",
+                        {"round": sm["round"], "trace": tp})
+        if sm["pending_after"] != 0:
+            v.violation("bookkeeping of finished remote calls is left behind (free-running round)", {"round": sm["round"], "outstanding_entries": sm["pending_after"]})
+    v.cov["free_running_traces_validated"] = ok
+    v.cov["free_running_rounds"] = rounds
+    return ok
+
+
 def run(tier, seed):
     v = lib.Verdict(PID, tier, seed, "model_checking")
     thorough = tier == "thorough"
@@ -98,7 +169,8 @@ def run(tier, seed):
             v.sample({"connection": s["conn"], "schedule": s["hist"], "results": [r["got"]["kind"] for r in o["results"]], "pending_after": o["pending_after"]})
     if desync > len(obs) // 4:
         raise lib.ToolError(f"{desync} of {len(obs)} schedules could not be followed on the real node (scheduler / hooks out of step)")
-    v.cov["traces_validated_against_impl"] = len(obs) - desync
+    n_free = free_traces(v, thorough, seed)
+    v.cov["traces_validated_against_impl"] = len(obs) - desync + n_free
     v.cov["schedules_not_followed"] = desync
     v.cov["rule"] = ("TLC: every interleaving of 2 callers (connection up / absent / broken) and 3 callers with up to 3 peer replies (own, duplicate, stray, late, addressed to the reply pid of another incarnation of the node); executed on the real Node: "
                      "behaviours of one caller (all in thorough, 120 + all fault paths sampled in quick) and TLC-simulated behaviours of two callers, each step forced through the guarded "
